@@ -170,6 +170,7 @@ type scen struct {
 	closeCh  chan struct{}
 	closed   bool
 	commitEr int
+	wire     bool
 	mu       sync.Mutex
 }
 
@@ -180,6 +181,8 @@ func newScen(rng *rand.Rand, topics []string, syncMode bool, errRate int) *scen 
 	kafka.VerifGroupResetConnIDs()
 	kafka.VerifStart()
 	kafka.VerifSetSink(s.log.Sink)
+	s.wire = rng.Intn(2) == 0
+	kafka.VerifSetGroupWire(s.wire)
 	kafka.VerifSetGroupHandler(s.mock.Handle)
 	cfg := kafka.ReaderConfig{
 		Brokers: []string{"b:9092"}, GroupID: "grp",
@@ -424,6 +427,7 @@ func (s *scen) emit() {
 	var toks []string
 	add := func(t string) { toks = append(toks, t) }
 	lastAssign, lastCommitted, lastFetchTopics := "-", "-", ""
+	pendAtt := map[string][2]string{}
 	for _, e := range evs {
 		a := e.Args
 		switch e.Kind {
@@ -443,7 +447,12 @@ func (s *scen) emit() {
 			switch a[1] {
 			case "offsetCommit":
 				// the request's offsets were journalled with the call; find them again (same conn, latest call)
-				add("att:" + s.lastCommitOffsets(evs, e.Seq) + ":" + b01(strconv.FormatBool(a[2] == "-")))
+				offs, ack := s.lastCommitOffsets(evs, e.Seq), b01(strconv.FormatBool(a[2] == "-"))
+				if s.wire { // the library's own conclusion follows as M.Wire
+					pendAtt[a[0]] = [2]string{offs, ack}
+				} else {
+					add("att:" + offs + ":" + ack + ":" + ack)
+				}
 			case "syncGroup":
 				if a[2] == "-" {
 					lastAssign = a[10]
@@ -452,6 +461,14 @@ func (s *scen) emit() {
 				add("fetch:" + b01(strconv.FormatBool(a[2] == "-")))
 				if a[2] == "-" {
 					lastCommitted = a[11]
+				}
+			}
+		case "M.Wire":
+			if a[1] == "offsetCommit" {
+				if pa, ok := pendAtt[a[0]]; ok {
+					delete(pendAtt, a[0])
+					// att:<offsets>:<what the library concluded>:<what the coordinator decided>
+					add("att:" + pa[0] + ":" + b01(strconv.FormatBool(a[2] == "-")) + ":" + pa[1])
 				}
 			}
 		case "CL.RetryAbort":
